@@ -87,7 +87,10 @@ def embedded_ok(u, t):
             k = j
             while k < len(u) and u[k] != "&":
                 k += 1
-            for end in (k,):
+            h = j
+            while h < k and u[h] != "#":
+                h += 1
+            for end in (k, h):          # a query value ends at the next '&', or earlier at the '#' opening the fragment
                 cands.add(u[j:end])
     for v in cands:
         d = U.unquote(v)
@@ -95,6 +98,10 @@ def embedded_ok(u, t):
             return True
         try:
             if U.urljoin(u, d) == t:
+                return True
+            # a url without scheme is joined as if it had one
+            import re as _re
+            if not _re.match(r"^[a-zA-Z]{0,64}:?//", u) and U.urljoin("http://" + u, d)[7:] == t:
                 return True
         except ValueError:
             pass
